@@ -48,6 +48,20 @@ NEEDS = {
  "C09b_2": ("C09", "typed `opt` turns an undecodable envelope into None", "mode exactly `opt` and data present but not an envelope (cell outside the covered ones: reaches from_json, CBMC does not finish)"),
  "C11b_1": ("C11", "bridged sudo arm gets a `cheap path` for responses without sub-messages that forgets the events", "custom(msg) interface, sudo kind, response with events and no sub-messages"),
  "C11b_2": ("C11", "CosmosMsg::Distribution arm under the wrong feature gate (found independently of C02b_2)", "default features and a distribution message"),
+ "C01c_1": ("C01", "every Option-typed field gets #[serde(skip_serializing_if = \"Option::is_none\")]: an unset optional argument loses its entry", "an Option argument whose value is None, and a look at the serialised form"),
+ "C01c_2": ("C01 (also C17)", "a forwarded serde(..) container attribute that does not set rename_all drops the snake_case renaming (|| instead of &&)", "sv::msg_attr(kind, serde(<anything but rename_all>)) on a kind with messages"),
+ "C05c_1": ("C05", "the selector caches the smallest head of the FIRST ongoing list and never updates it", "at least three parts; the shared name in two lists other than the first, positioned so that the walk advances past it"),
+ "C05c_2": ("C05", "one overlap assertion per (interface, contract) pair instead of one over all parts: interface-vs-interface comparisons are lost", "two interfaces sharing a name that the contract itself does not use"),
+ "C10c_1": ("C10", "InstantiateBuilder::with_funds rebuilt with ..Self::new(..): admin and label set before it are reset", "with_admin or with_label called BEFORE with_funds"),
+ "C10c_2": ("C10", "ExecutorBuilder::with_funds normalises funds through Coins and drops them on failure", "a repeated denom, a zero-amount coin, or coins not in denom order"),
+ "C14c_1": ("C14", "ReplyData::merge always skips the first parameter of the second-declared method", "success (without data) + error under one name, error declared first: rejected, the other order accepted"),
+ "C14c_2": ("C14", "an `already declared` guard on sv::messages keyed on the LAST path segment, ignoring the alias", "two interfaces whose module paths end in the same segment, told apart by `as` aliases"),
+ "C15c_1": ("C15", "handler arguments are scanned for type parameters only when their top-level type is a plain path", "a parameter reaching a message kind only through a top-level tuple, array or qualified-self path"),
+ "C15c_2": ("C15", "the generic-usage scan no longer descends into paths of more than one segment", "a parameter used only inside a module-qualified generic type (std::vec::Vec<T>)"),
+ "C17c_1": ("C17", "msg_attr kind match refactored into a table whose `reply` row says Sudo", "sv::msg_attr(reply, ..): must land on no type, lands on SudoMsg"),
+ "C17c_2": ("C17", "forwarded attributes dropped on field-less InstantiateMsg / MigrateMsg", "an instantiate or migrate handler without arguments plus sv::msg_attr for that kind"),
+ "C20c_1": ("C20", "decoding a Remote lower-cases the address", "an address containing an upper-case character"),
+ "C20c_2": ("C20", "schema_name derived from type_name with rsplit_once('<')", "a type parameter written with angle brackets (generic contract, dyn Interface<Error = E>)"),
  "C20_2": ("C20", "Remote.addr deserialised as a borrowed &'de str: owned strings (escapes) are rejected", "an address containing a character that JSON escapes; at the serde data-model level: any format handing out non-borrowed strings"),
 }
 
@@ -55,7 +69,7 @@ def main():
     val = {}
     for f in glob.glob(os.path.join(HERE, ".build", "validate_seeds.log")) + glob.glob(os.path.join(HERE, ".build", "seed_queue*.log")):
         for line in open(f):
-            m = re.match(r"(C\d\db?_\d): demo_on_pristine_exit=(\d+) demo_with_patch_exit=(\d+) suite_with_patch_exit=(\d+)", line)
+            m = re.match(r"(C\d\d[bc]?_\d): demo_on_pristine_exit=(\d+) demo_with_patch_exit=(\d+) suite_with_patch_exit=(\d+)", line)
             if m:
                 val[m.group(1)] = dict(demo_on_unchanged_tree="passes" if m.group(2) == "0" else "FAILS", demo_with_change="fails" if m.group(3) != "0" else "PASSES",
                                        existing_suite_with_change="passes" if m.group(4) == "0" else "FAILS")
@@ -64,7 +78,7 @@ def main():
         if not os.path.exists(f):
             continue
         for line in open(f):
-            m = re.match(r"(C\d\db?_\d) (C\d\d) exit=(\d+) (\d+) violation-lines; (.*)", line)
+            m = re.match(r"(C\d\d[bc]?_\d) (C\d\d) exit=(\d+) (\d+) violation-lines; (.*)", line)
             if m:
                 det.setdefault(m.group(1), {})[m.group(2)] = dict(check_exit=int(m.group(3)), violation_lines=int(m.group(4)), summary=m.group(5).strip()[:200])
     for sid, (prop, what, needs) in sorted(NEEDS.items()):
